@@ -32,6 +32,7 @@ C05Problems(ev) ==
     \cup (IF Faulty(sys) THEN (IF base.type \in ErrTypes /\ base.analyserErrors > 0 THEN {} ELSE {"an under- / over-constrained system is not reported as such with an error"})
           ELSE IF base.type = ExpectedType(sys) THEN {} ELSE {"model type differs from the ground truth"})
     \cup (IF \A i \in DOMAIN ev.variants : ev.variants[i].type = base.type /\ ClassTypes(ev.variants[i]) = ClassTypes(base) THEN {} ELSE {"classification changes with the order / names of components, variables or equations"})
+    \cup (IF base.type \in ErrTypes \/ \A i \in DOMAIN ev.variants : ev.variants[i].sig = base.sig THEN {} ELSE {"equation types, state / rate dependence or dependencies change with the order / names of components, variables or equations"})
     \cup (IF base.type \in ErrTypes THEN {} ELSE
            (IF {nv[i].name : i \in DOMAIN nv} = ClassNames(sys) /\ Len(nv) = Cardinality(ClassNames(sys)) THEN {} ELSE {"a class of connected variables does not appear exactly once"})
            \cup (IF \A i \in DOMAIN nv : nv[i].name \in ClassNames(sys) => nv[i].type \in TypesOf(sys, nv[i].name) THEN {} ELSE {"variable type differs from the ground truth"})
@@ -142,7 +143,9 @@ C20Problems(ev) ==
 \* unknown with an initialised variable); one listing order gives the expected type, the other "overconstrained"; nothing else is wrong.
 Dev(d, ev) ==
     /\ d = "NlaOrderDependence" /\ Mode = "C05" /\ ev.sys.nla = "mixed"
-    /\ C05Problems(ev) = {"classification changes with the order / names of components, variables or equations"}
+    /\ "classification changes with the order / names of components, variables or equations" \in C05Problems(ev)
+    /\ C05Problems(ev) \subseteq {"classification changes with the order / names of components, variables or equations",
+                                   "equation types, state / rate dependence or dependencies change with the order / names of components, variables or equations"}
     /\ \A i \in DOMAIN ev.variants : ev.variants[i].type \in {ExpectedType(ev.sys), "overconstrained"}
     /\ ev.variants[1].type = ExpectedType(ev.sys)
 Problems(ev) == CASE Mode = "C05" -> C05Problems(ev) [] Mode = "C03" -> C03Problems(ev) [] Mode = "C17" -> C17Problems(ev) [] Mode = "C20" -> C20Problems(ev)
